@@ -64,6 +64,15 @@ Theorem C02_arena_compose_ok : forall alloc K s L a, fresh_alloc alloc -> karity
   exists a', arena_compose alloc K s L a = Some a'.
 Proof. exact arena_compose_some. Qed.
 
+(* the side condition on the leaves is itself preserved, so compositions chain: f.compose(g).compose(h) *)
+Theorem C02_arena_leaves_preserved : forall alloc K s L a a', fresh_alloc alloc -> leaves_empty K a ->
+  arena_compose alloc K s L a = Some a' -> leaves_empty K a'.
+Proof. exact arena_compose_leaves_empty. Qed.
+Theorem C02_arena_compose_twice : forall alloc K s L1 L2 a a1 a2, fresh_alloc alloc -> karity K L1 -> L1 <> U -> karity K L2 -> L2 <> U ->
+  leaves_empty K a -> arena_compose alloc K s L1 a = Some a1 -> arena_compose alloc K s L2 a1 = Some a2 ->
+  forall fuel i t, abs_at fuel a i = Some t -> exists F, abs_at F a2 i = Some (lift s (lift s t L1) L2).
+Proof. exact arena_compose_twice. Qed.
+
 (* the arena-level run on an arena with a freed slot: Ok, abstracts to the lifted tree, indices / states as claimed *)
 Example C02_frame_nonvacuous :
   fresh_alloc next_key /\
@@ -103,4 +112,6 @@ Print Assumptions C02_frame_checker_sound.
 Print Assumptions C02_frame_implies_checked_relation.
 Print Assumptions C02_arena_refines_lift.
 Print Assumptions C02_arena_compose_ok.
+Print Assumptions C02_arena_leaves_preserved.
+Print Assumptions C02_arena_compose_twice.
 Print Assumptions C02_frame_nonvacuous.
